@@ -394,7 +394,49 @@ def build_cases(gen, rng, tier):
             it["fields"]["list"][0]["attr"] = ["fmt", gen.pieces(it["fields"], 0)]
         case["items"].append(it)
         add("field-format", case["items"], [A(1)], nvals=1)
+    # --- E. field-level formats that are exactly ONE placeholder (`{_0:?}`, `{:?}` + one argument, `{name:?}`, `{0:?}`,
+    #        `{v0:?}`, also `{_0}` / `{:x}` / `{_0:#?}` ...) on fields whose output reacts to the outer formatter (nested
+    #        structs for `#`, integers for `x?`/width/sign, floats for precision, padding-aware leaves): the literal must
+    #        behave as `&format_args!(..)` - a fresh formatter - and never inherit the outer options
+    reactive = [lambda: A(0), lambda: A(0), lambda: LT("i32"), lambda: LT("u8"), lambda: LT("f64"), lambda: ["vec", LT("i32")],
+                lambda: ["opt", A(0)], lambda: ["tup", [LT("i32"), A(0)]], lambda: LT("Pad"), lambda: ["vec", A(0)],
+                lambda: LT("i64"), lambda: LT("AltAware")]
+    for rep in range(36 if tier == "quick" else 150):
+        case = {"items": []}
+        inner = gen.struct(case, nm(0), rng.choice(["tuple", "named"]), rng.randrange(1, 3), [], depth=0, p_adt=0)
+        for f in inner["fields"]["list"]:
+            f["ty"] = LT(rng.choice(["i32", "u8", "i32", "f64"]))
+        case["items"].append(inner)
+        shape = ["tuple", "named", "enum"][rep % 3]
+
+        def mkfields(kind, n):
+            names = gen.field_names(n, 0.15) if kind == "named" else [None] * n
+            fs = {"kind": kind, "list": [{"name": names[i], "ty": rng.choice(reactive)(), "attr": None} for i in range(n)]}
+            marked = rng.sample(range(n), rng.randrange(1, n + 1))
+            for i in range(n):
+                if i in marked:
+                    fs["list"][i]["attr"] = ["fmt", gen.bare_pieces(fs, i, 0.45 if rep % 4 else 1.0)]
+                elif rng.random() < 0.25:
+                    fs["list"][i]["attr"] = [rng.choice(["skip", "ignore"])]
+            return fs
+
+        if shape == "enum":
+            it = {"kind": "enum", "name": nm(1), "params": [], "variants": [
+                {"name": G.ident("V0"), "fields": mkfields("tuple", rng.randrange(1, 4))},
+                {"name": G.ident("V1"), "fields": mkfields("named", rng.randrange(1, 4))},
+                {"name": G.ident("V2"), "fields": {"kind": "unit", "list": []}}]}
+        else:
+            it = {"kind": "struct", "name": nm(1), "params": [], "fields": mkfields(shape, rng.randrange(1, 4))}
+        case["items"].append(it)
+        add("bareformat-" + shape, case["items"], [A(1)], nvals=1)
     return cases
+
+
+def bare_some(gen, rng, fs, p=0.3):
+    """turn some of the field-level formats of fs into single-placeholder literals"""
+    for i, f in enumerate(fs["list"]):
+        if f["attr"] and f["attr"][0] == "fmt" and rng.random() < p:
+            f["attr"] = ["fmt", gen.bare_pieces(fs, i)]
 
 
 def extra_decision_items(gen, rng, n):
@@ -408,10 +450,12 @@ def extra_decision_items(gen, rng, n):
             kind = rng.choice(["unit", "tuple", "named"])
             it = gen.struct(case, name, kind, rng.randrange(0, 6), [], depth=0, p_adt=0, **({"raw_p": 0.3} if kind == "named" else {}))
             gen.add_attrs(it["fields"], p_skip=rng.choice([0, 0.3]), p_fmt=rng.choice([0, 0.3]))
+            bare_some(gen, rng, it["fields"])
         else:
             it = gen.enum(case, name, rng.sample(shapes_pool, rng.randrange(1, 6)), [], depth=0, p_adt=0, raw_variants=0.3, raw_p=0.3)
             for v in it["variants"]:
                 gen.add_attrs(v["fields"], p_skip=rng.choice([0, 0.3]), p_fmt=rng.choice([0, 0.3]))
+                bare_some(gen, rng, v["fields"])
         case["items"].append(it)
         out.append(case)
     return out
@@ -471,6 +515,16 @@ def decision_tie(chk, inproc, cases, sites):
             if mc != rc:
                 chk.violation("tie-decision-model", {"case": dict(case, values=case.get("values", []), tag=case.get("tag", "extra")), "item": src, "unit": name, "model": mc, "real": rc},
                               "Coq generate_body disagrees with the real expansion on %s (%s): model %s, real %s" % (src, name["n"], mc, rc))
+            # the decision-level oracle for field-level formats: the value handed to the builder must be
+            # `&format_args!(<the attribute>)` (a fresh formatter), never the field itself
+            for (fname, val) in rc[2]:
+                if val[0] == "field" and fs["list"][val[1]]["attr"] and fs["list"][val[1]]["attr"][0] == "fmt":
+                    chk.violation("field-format-not-format-args",
+                                  {"case": dict(case, values=case.get("values", []), tag=case.get("tag", "extra")), "item": src,
+                                   "unit": name, "field_index": val[1], "attribute": G.fmt_attr_tokens(fs, fs["list"][val[1]]["attr"][1])},
+                                  "field %d of `%s` in %s carries #[debug(%s)] but the expansion hands the field itself to the "
+                                  "builder instead of &format_args!(..): it will be formatted with the outer formatter's options" % (
+                                      val[1], G.id_rs(name), src, G.fmt_attr_tokens(fs, fs["list"][val[1]]["attr"][1])))
             # the decision-level oracle for names: std prints the identifier without r#
             if rc[1] != name["n"]:
                 chk.violation("raw-ident-name", {"case": dict(case, values=case.get("values", []), tag=case.get("tag", "extra")), "item": src, "unit": name, "printed_name": rc[1], "std_name": name["n"]},
@@ -706,7 +760,7 @@ def run(tier, seed, replay):
                     if safe and fixed != flat3(msd[k]):
                         causes = []        # the model itself says equal-when-safe: cannot happen if the proofs hold
                 if not causes:
-                    causes = ["mismatch:%s:%s" % (mode, rootk)]
+                    causes = ["%s:%s:%s" % ("field-format-mismatch" if G.value_has_fmt_attr(case, vv["v"]) else "mismatch", mode, rootk)]
                 for cls in causes:
                     chk.violation(cls, rep, "format!(\"%s\", %s): derive_more prints %r, std prints %r" % (
                         G.TOP_TXT[k], rep["value_rust"], rdm, rsd))
